@@ -1,6 +1,7 @@
 package h
 
 import (
+	"database/sql"
 	"fmt"
 	"os"
 	"path/filepath"
@@ -326,4 +327,58 @@ func (w *RegWorld) Close() {
 			_ = h.b.CloseAndDelete(ctx)
 		}()
 	}
+}
+
+// RunOpenFailureScript: one scripted execution outside the searches (it needs SQLite's 10 s busy timeout to
+// pass in real time): an existing on-disk bucket whose database is write-locked by another connection
+// cannot be opened - and must still be there, with its data, once the lock is gone (C13: "data is intact
+// when reopened"; a failed open is not a delete).
+func RunOpenFailureScript(rep *Report) {
+	root := NewScratchDir()
+	defer removeAll(root)
+	dir := filepath.Join(root, "locked")
+	url := "rosmar://" + dir
+	viol := func(field, detail string) {
+		rep.AddViolation(Violation{Prop: "C13", Op: "script:open-while-locked", Pre: "script", Field: field, Detail: detail}, map[string]any{"kind": "script", "name": "open-while-locked"})
+	}
+	rep.Transitions += 4
+	rep.Executions++
+	b, err := rosmar.OpenBucket(url, "locked", rosmar.CreateNew)
+	if err != nil {
+		rep.Internal = append(rep.Internal, "open-failure script: "+err.Error())
+		return
+	}
+	if err := coll(b, NameA).SetRaw("m", 0, nil, []byte("marker")); err != nil {
+		rep.Internal = append(rep.Internal, "open-failure script: "+err.Error())
+		return
+	}
+	b.Close(ctx)
+	db, err := sql.Open("sqlite3_for_rosmar", "file:"+filepath.Join(dir, "rosmar.sqlite3")+"?_txlock=immediate&_journal_mode=WAL")
+	if err != nil {
+		rep.Internal = append(rep.Internal, "open-failure script: "+err.Error())
+		return
+	}
+	tx, err := db.Begin()
+	if err == nil {
+		_, err = tx.Exec(`UPDATE bucket SET name=name`)
+	}
+	if err != nil {
+		rep.Internal = append(rep.Internal, "open-failure script: cannot take the write lock: "+err.Error())
+		return
+	}
+	if b2, err := rosmar.OpenBucket(url, "locked", rosmar.ReOpenExisting); err == nil {
+		// (it got in after all: nothing to judge, release everything)
+		b2.Close(ctx)
+	}
+	_ = tx.Rollback()
+	_ = db.Close()
+	b3, err := rosmar.OpenBucket(url, "locked", rosmar.ReOpenExisting)
+	if err != nil {
+		viol("destroyed", "an OpenBucket that failed because the database was locked destroyed the bucket: afterwards ReOpenExisting says "+err.Error())
+		return
+	}
+	if v, _, err := coll(b3, NameA).GetRaw("m"); err != nil || string(v) != "marker" {
+		viol("data", fmt.Sprintf("after a failed OpenBucket the bucket's data reads (%q, %v)", v, err))
+	}
+	_ = b3.CloseAndDelete(ctx)
 }
